@@ -17,7 +17,7 @@ META = {
                    "integer value) and the handler's fault schedule are symbolic; after every operation the invariant (scope stack = "
                    "[base], instance / schema / store documents unchanged) is asserted and the next operation's result equals a fresh "
                    "validator's.  Every operation restoring the invariant makes histories of any length chains of such steps.",
-    "bounds": {"history length": "1 operation + final probe (quick), 2 operations + final probe (thorough, drafts 4 and 7)", "k": "0..2", "schema": "one per draft containing every reference kind"},
+    "bounds": {"history length": "1 operation + final probe (quick), 2 operations + final probe (thorough, Draft 7)", "k": "0..2", "schema": "one per draft containing every reference kind"},
     "outside": ["re-entering a validator while one of its own iterators is suspended (excluded by the property)", "threads"],
     "stubs": ["message formatting", "the http handler is a harness function with a symbolic fault schedule"],
     "assumptions": ["CPython finalises an abandoned generator promptly (the plain-interpreter replay is the arbiter)"],
@@ -205,7 +205,7 @@ def conditions(tier, seed, active):
                                 witness=["valid", "invalid"] if (d == 7 and k == 5 and o < 2) else []))
         # two operations + probe: measured 2000+ paths / 2200 s when only the first operation and key are fixed, so these are
         # cubed on (first op, first key, second op) and run in the thorough tier only
-        if not quick and d in (4, 7):
+        if not quick and d == 7:
             for o in range(N_OPS):
                 for k in range(len(KEYS)):
                     for o2 in range(N_OPS):
